@@ -46,37 +46,39 @@ Section Trace.
     | Yield x _ => Some ("S(" ++ show_item x ++ ")")
     end.
 
-  Definition push (a b c : string) (r : option (list string * list string * list string * iter C)) :=
+  (** [copy().rev()] of a state, its first [fuel] items drained from the front *)
+  Fixpoint drain_front (fuel : nat) (it : iter C) : list string :=
+    match fuel with
+    | O => []
+    | S f =>
+        match it_step nb bb Front it with
+        | Panic => ["PANIC"]
+        | Stop => []
+        | Yield x it' => show_item x :: drain_front f it'
+        end
+    end.
+  Fixpoint join_dot (l : list string) : string :=
+    match l with [] => "" | [a] => a | a :: r => a ++ "." ++ join_dot r end.
+  Definition show_rv (it : iter C) : string := join_dot (drain_front 4 (it_rev (it_copy it))).
+
+  Definition push (a b c d : string) (r : option (list string * list string * list string * list string)) :=
     match r with
     | None => None
-    | Some (x, y, z, f) => Some (a :: x, b :: y, c :: z, f)
+    | Some (x, y, z, w) => Some (a :: x, b :: y, c :: z, d :: w)
     end.
 
-  (** also returns the iterator after the history *)
-  Fixpoint trace (h : list end_) (it : iter C) : option (list string * list string * list string * iter C) :=
+  Fixpoint trace (h : list end_) (it : iter C) : option (list string * list string * list string * list string) :=
     match h with
-    | [] => Some ([], [], [], it)
+    | [] => Some ([], [], [], [])
     | e :: h' =>
         match show_step (it_step nb bb (flip_end e) (it_copy it)) with
         | None => None
         | Some alt =>
             match it_step nb bb e (it_copy it) with
             | Panic => None
-            | Stop => push "N" alt (show_rem it) (trace h' it)
-            | Yield x it' => push ("S(" ++ show_item x ++ ")") alt (show_rem it') (trace h' it')
+            | Stop => push "N" alt (show_rem it) (show_rv it) (trace h' it)
+            | Yield x it' => push ("S(" ++ show_item x ++ ")") alt (show_rem it') (show_rv it') (trace h' it')
             end
-        end
-    end.
-
-  (** [copy().rev()] of a state, drained from its front *)
-  Fixpoint drain_front (fuel : nat) (it : iter C) : list string :=
-    match fuel with
-    | O => ["FUEL"]
-    | S f =>
-        match it_step nb bb Front it with
-        | Panic => ["PANIC"]
-        | Stop => []
-        | Yield x it' => show_item x :: drain_front f it'
         end
     end.
 
@@ -86,11 +88,11 @@ Section Trace.
     | Some it =>
         match trace h it with
         | None => "PANIC"
-        | Some (items, alts, rems, fin) =>
+        | Some (items, alts, rems, rvs) =>
             show_fields
               ([("items", show_list (fun s => s) items); ("alt", show_list (fun s => s) alts)] ++
                (if with_rem then [("rem", show_list (fun s => s) (show_rem it :: rems))] else []) ++
-               [("rv", show_list (fun s => s) (drain_front fuel (it_rev (it_copy fin))))])
+               [("rv", show_list (fun s => s) rvs)])
         end
     end.
 End Trace.
